@@ -4,6 +4,8 @@
 //     max + min of that axis (the midpoint; the quotient is named, not evaluated: the exact ring scalar has no quotients);
 //   * `Centroid for Rect` = that centre, converted into a Point unchanged;
 //   * `Centroid for Point` = the point itself.
+//   * `Centroid for Line` = (start_point + end_point) / 2: each component is the quotient by a scalar of value 2 of a scalar
+//     carrying exactly start + end of that axis (through the real `Add for Point / Coord`, `Div<T> for Point / Coord`).
 // ASSUMED: exact ring scalar; the division's precondition (never panics for floats).
 //@include prelude_exact.rs
 verus! {
@@ -66,6 +68,88 @@ where
 //@ret r
 //@spec
         ensures r == *self,
+//@end
+}
+
+// ------------------------------------------------------------------ Centroid for Line: the midpoint (start + end) / 2
+//@type geo-types/src/geometry/line.rs | Line
+/// the quotient of a scalar of value `num` by the scalar d
+pub open spec fn is_quot_of<T: CoordNum>(r: T, num: int, d: T) -> bool {
+    exists|s: T| s.val() == num && r.val() == (#[trigger] s.div_spec(d)).val()
+}
+impl<T: CoordNum> vstd::std_specs::ops::AddSpecImpl for Coord<T> {
+    open spec fn obeys_add_spec() -> bool { false }
+    open spec fn add_req(self, rhs: Self) -> bool { true }
+    uninterp spec fn add_spec(self, rhs: Self) -> Self;
+}
+impl<T: CoordNum> core::ops::Add for Coord<T> {
+    type Output = Self;
+//@fn geo-types/src/geometry/coord.rs | impl<T: CoordNum> Add for Coord<T> | add | id=C12.V.coord_add | props=C12
+//@ret r
+//@spec
+        ensures r.x.val() == self.x.val() + rhs.x.val(), r.y.val() == self.y.val() + rhs.y.val(),
+//@entry
+        proof { T::ax_obeys(); T::ax_ring(); }
+//@end
+}
+impl<T: CoordNum> vstd::std_specs::ops::DivSpecImpl<T> for Coord<T> {
+    open spec fn obeys_div_spec() -> bool { false }
+    open spec fn div_req(self, rhs: T) -> bool { forall|a: T| #[trigger] a.div_req(rhs) }
+    uninterp spec fn div_spec(self, rhs: T) -> Self;
+}
+impl<T: CoordNum> core::ops::Div<T> for Coord<T> {
+    type Output = Self;
+//@fn geo-types/src/geometry/coord.rs | impl<T: CoordNum> Div<T> for Coord<T> | div | id=C06.V.coord_div
+//@ret r
+//@spec
+        ensures T::obeys_div_spec() ==> r.x == self.x.div_spec(rhs) && r.y == self.y.div_spec(rhs),
+//@end
+}
+impl<T: CoordNum> vstd::std_specs::ops::AddSpecImpl for Point<T> {
+    open spec fn obeys_add_spec() -> bool { false }
+    open spec fn add_req(self, rhs: Self) -> bool { true }
+    uninterp spec fn add_spec(self, rhs: Self) -> Self;
+}
+impl<T: CoordNum> core::ops::Add for Point<T> {
+    type Output = Self;
+//@fn geo-types/src/geometry/point.rs | impl<T: CoordNum> Add for Point<T> | add | id=C06.V.point_add
+//@ret r
+//@spec
+        ensures r.0.x.val() == self.0.x.val() + rhs.0.x.val(), r.0.y.val() == self.0.y.val() + rhs.0.y.val(),
+//@end
+}
+impl<T: CoordNum> vstd::std_specs::ops::DivSpecImpl<T> for Point<T> {
+    open spec fn obeys_div_spec() -> bool { false }
+    open spec fn div_req(self, rhs: T) -> bool { forall|a: T| #[trigger] a.div_req(rhs) }
+    uninterp spec fn div_spec(self, rhs: T) -> Self;
+}
+impl<T: CoordNum> core::ops::Div<T> for Point<T> {
+    type Output = Self;
+//@fn geo-types/src/geometry/point.rs | impl<T: CoordNum> Div<T> for Point<T> | div | id=C06.V.point_div
+//@ret r
+//@spec
+        ensures T::obeys_div_spec() ==> r.0.x == self.0.x.div_spec(rhs) && r.0.y == self.0.y.div_spec(rhs),
+//@end
+}
+impl<T: CoordNum> Line<T> {
+    /// twins of Line::start_point / end_point (`Point::from(self.start)`; Point::from is proved above)
+    #[verifier::external_body]
+    pub fn start_point(&self) -> (r: Point<T>) ensures r.0 == self.start { unimplemented!() }
+    #[verifier::external_body]
+    pub fn end_point(&self) -> (r: Point<T>) ensures r.0 == self.end { unimplemented!() }
+}
+impl<T> Centroid for Line<T>
+where
+    T: GeoFloat,
+{
+    type Output = Point<T>;
+//@fn geo/src/algorithm/centroid.rs | impl<T> Centroid for Line<T> where T: GeoFloat, | centroid | id=C06.V.line_centroid
+//@ret r
+//@spec
+        // THE FORMULA: the midpoint of the two end points, axis by axis
+        ensures is_half_of(r.0.x, self.start.x.val() + self.end.x.val()), is_half_of(r.0.y, self.start.y.val() + self.end.y.val()),
+//@entry
+        proof { T::ax_obeys(); T::ax_ring(); T::ax_div(); }
 //@end
 }
 
